@@ -5,7 +5,7 @@
    any list of source tasks whose counts sum to the requested number NREQ, and ANY schedule
    (list of labels).  fixed_loop = true is the worker loop as repaired; false the pinned commit. *)
 From Coq Require Import List Arith Bool Permutation.
-From CMI Require Import Cxx.C01_Defs Cxx.C01_Proofs.
+From CMI Require Import Cxx.C01_Defs Cxx.C01_Proofs Cxx.C01_Gen Cxx.C01_GenProofs.
 Import ListNotations.
 
 (* In every reachable state every packet created so far is in exactly one place -- an active
@@ -26,11 +26,11 @@ Theorem C01_flag_cleared_only_when_all_done : forall CAP NTHR NREQ reemit ngb, 0
 Proof. exact flag_cleared_only_when_all_done. Qed.
 Print Assumptions C01_flag_cleared_only_when_all_done.
 
-(* Tasks held by different threads never share a dependency: two traversal tasks of one subgrid (or two
+(* Tasks whose dependency is held (fetched or running) by different threads never share a dependency: two traversal tasks of one subgrid (or two
    source/flush tasks of one continuous block) are never in progress at the same time. *)
 Theorem C01_mutual_exclusion : forall CAP NTHR NREQ reemit ngb, 0 < CAP -> forall srcs crem s,
   init_ok NREQ srcs crem -> 0 < NTHR -> reachable CAP NTHR NREQ reemit ngb srcs crem s ->
-  NoDup (sdeps (held s)) /\ NoDup (bdeps (held s)).
+  NoDup (sdeps (locked s)) /\ NoDup (bdeps (locked s)).
 Proof. exact mutual_exclusion. Qed.
 Print Assumptions C01_mutual_exclusion.
 
@@ -66,3 +66,17 @@ Theorem C01_repaired_loop_same_schedule :
   (exists s, o7_final true = Some s /\ thr s = [PInner (Some (TFlush 1)); PExit]) /\ init_ok 2 [TSrcC 0 2] 2.
 Proof. exact (conj repaired_loop_same_schedule o7_init_ok). Qed.
 Print Assumptions C01_repaired_loop_same_schedule.
+
+(* Tie to the source: the transition function with the loop condition and the termination test REGENERATED from
+   src/TaskBasedIonizationSimulation.cpp and src/TaskBasedRadiationHydrodynamicsSimulation.cpp (C01_Gen.v, written by
+   tools/c01_guards.py on every run) is the transition function all theorems above are about. *)
+Theorem C01_source_guards_are_model_guards : forall CAP NTHR NREQ reemit ngb s l,
+  step_g CAP NTHR reemit ngb gen_loop_ion (fun e d => gen_term_ion e d NREQ) s l = step CAP NTHR NREQ reemit ngb true s l
+  /\ step_g CAP NTHR reemit ngb gen_loop_rhd (fun e d => gen_term_rhd e d NREQ) s l = step CAP NTHR NREQ reemit ngb true s l.
+Proof. exact generated_step_is_model. Qed.
+Print Assumptions C01_source_guards_are_model_guards.
+
+Theorem C01_source_termination_test_read_order :
+  gen_translated = true /\ gen_reads_ion = [0; 1] /\ gen_reads_rhd = [0; 1].
+Proof. exact (conj gen_translated_ok gen_reads_ok). Qed.
+Print Assumptions C01_source_termination_test_read_order.
